@@ -7,11 +7,12 @@
           run the model copier (N: without the number of Puts); prints
             <id> ok <nputs> | <canon of the model's target from the call results>
           or <id> err <class>
-     <id> K <nsrc> src* <ntgt> (<ref> obj)* <ntr> (<s> <t>)* <nroots> (obj obj)*
+     <id> K <srcenc> <tgtenc> <nsrc> src* <ntgt> (<ref> obj)* <ntr> (<s> <t>)* <nroots> (obj obj)* <nobs> (<t> <flag>)*
           certified checker on graphs read back from real files; prints
             <id> iso <0|1>
             <id>.cs <canon of the source from the source roots>
-            <id>.ct <canon of the target from the target roots> *)
+            <id>.ct <canon of the target from the target roots>
+            <id>.y  <t>:<0|1|2> per observed target stream: data in the file is ciphertext (model's prediction) *)
 open Wire
 open Copier
 
@@ -132,14 +133,26 @@ let () =
          Printf.printf "%s ok %s | %s\n" id
            (if op = "M" then string_of_int (Stdlib.List.length st.puts) else "-")
            (string_of_canon (Checker.canon g roots)))
-    | id :: "K" :: rest ->
+    | id :: "K" :: srcenc :: tgtenc :: rest ->
       let (src, rest) = counted parse_src_entry rest in
       let (tgt, rest) = counted parse_tgt_entry rest in
       let (tr, rest) = counted parse_pair rest in
-      let (roots, _) = counted parse_root rest in
+      let (roots, rest) = counted parse_root rest in
+      let (obs, _) = counted parse_pair rest in
       let ok = Checker.iso_ok src tgt tr roots in
       Printf.printf "%s iso %s\n" id (string_of_bool ok);
       Printf.printf "%s.cs %s\n" id (string_of_canon (Checker.canon src (Stdlib.List.map fst roots)));
       Printf.printf "%s.ct %s\n" id
-        (string_of_canon (Checker.canon (Checker.target_graph tgt) (Stdlib.List.map snd roots)))
+        (string_of_canon (Checker.canon (Checker.target_graph tgt) (Stdlib.List.map snd roots)));
+      (* per copied stream: is the data in the target file ciphertext?  (2: not observable) *)
+      Printf.printf "%s.y %s\n" id
+        (Stdlib.String.concat " "
+           (Stdlib.List.map
+              (fun (t, flag) ->
+                let p =
+                  if int_of_n flag = 2 then 2
+                  else int_of_n (StreamCrypt.predict_cipher src tr (srcenc = "1") (tgtenc = "1") t)
+                in
+                string_of_n t ^ ":" ^ string_of_int p)
+              obs))
     | _ -> ())
